@@ -106,6 +106,9 @@ var c18LongTag = strings.Repeat("tag-", 20)
 // cold in every explored schedule, not only in the very first execution of the process.
 var c18Epoch int
 
+// c18K is the number of threads of the scenario being explored (c18Row needs it).
+var c18K int
+
 // refill empties m and fills it from src: every goroutine passes ONE map object to all its AddRow calls, refilled in
 // between (a writer that keeps the caller's map instead of its content sees later rows in earlier ones).
 func refill(m, src model.Row) model.Row {
@@ -121,8 +124,8 @@ func refill(m, src model.Row) model.Row {
 func c18Row(t, j int) model.Row {
 	e := strconv.Itoa(c18Epoch)
 	r := model.Row{"id": fmt.Sprintf("%st%d_%d", c18LongTag, t, j), "c": "shared", "d": "thread" + strconv.Itoa(t), "e" + e: "v" + e}
-	if j > 0 {
-		r["cold"] = "x" // only the later rows of a thread bring the value of the very first rows back
+	if j > 0 || (c18K >= 3 && t == c18K-1) {
+		r["cold"] = "x" // only the later rows of a thread (and the last of three or more threads) bring the value of the very first rows back
 	}
 	return r
 }
@@ -138,6 +141,7 @@ func c18Scenario(ctx *rt.Ctx, p c18Params, lastOutcome *string) vsched.Scenario 
 	}
 	return func() ([]func(), func(*vsched.Result) string) {
 		c18Epoch++
+		c18K = p.K
 		w := newC18World(ctx.Scratch, p)
 		obs := &c18Obs{ids: make([][]uint32, p.K), errs: make([]error, p.K)}
 		var bodies []func()
@@ -168,6 +172,7 @@ func c18Scenario(ctx *rt.Ctx, p c18Params, lastOutcome *string) vsched.Scenario 
 func c18Separate(ctx *rt.Ctx, p c18Params, lastOutcome *string) vsched.Scenario {
 	return func() ([]func(), func(*vsched.Result) string) {
 		c18Epoch++
+		c18K = p.K
 		ws := make([]*c18World, p.K)
 		obs := make([]*c18Obs, p.K)
 		var bodies []func()
@@ -339,15 +344,34 @@ func c18Run(ctx *rt.Ctx) []*rt.Violation {
 	type kr struct{ k, r, pre int }
 	cfgs := []kr{{2, 2, 0}, {3, 1, 0}, {2, 1, 999}, {2, 2, 998}}
 	if ctx.Thorough() {
-		cfgs = []kr{{2, 2, 0}, {3, 1, 0}, {3, 2, 0}, {4, 1, 0}, {2, 3, 0}, {2, 1, 999}, {2, 2, 998}, {3, 1, 998}, {3, 1, 999}, {2, 2, 999}, {2, 2, 65535}, {2, 2, 131071}}
+		cfgs = []kr{{2, 2, 0}, {3, 1, 0}, {3, 2, 0}, {4, 1, 0}, {2, 3, 0}, {2, 1, 999}, {2, 2, 998}, {3, 1, 998}, {3, 1, 999}, {2, 2, 999}, {3, 1, 65535}, {3, 1, 131071}}
 	}
-	var jobs []rt.Job
+	var jobs, bigJobs []rt.Job
 	for _, w := range []ix.Writer{ix.MemFile, ix.Big} {
 		for _, c := range cfgs {
 			if w == ix.MemFile && c.pre > 0 && c.pre < 60000 && !(c.k == 2 && c.r == 1) {
 				continue // the 1000-row commit only exists in the big writer
 			}
 			pb, _ := json.Marshal(c18Params{Writer: int(w), K: c.k, R: c.r, Pre: c.pre})
+			if c.pre >= 60000 && (w == ix.Big || c.pre < 100000) {
+				continue // (one such configuration is affordable: the in-memory writer with 131071 rows)
+			}
+			if false {
+				// (the big writer commits every 1000 rows: two AddRow calls in all after so many rows are enough there)
+				pb1, _ := json.Marshal(c18Params{Writer: int(w), K: 2, R: 1, Pre: c.pre})
+				b, _ := json.Marshal(e3Job{Scenario: "addrow", Params: pb1, Bound: -1})
+				bigJobs = append(bigJobs, rt.Job{Name: fmt.Sprintf("addrow-%s-2x1+%d", w, c.pre), NShards: 1, Args: b})
+				continue
+			}
+			if c.pre >= 60000 {
+				// every execution inserts the rows before the concurrent phase again, and every worker holds such an index
+				// under the race detector (gigabytes, and the detector's shadow memory is not given back): three threads
+				// with one row each, NO preemption (every order in which the threads can run one after the other; this
+				// configuration alone is not explored without bound: an execution takes about a minute)
+				b, _ := json.Marshal(e3Job{Scenario: "addrow", Params: pb, Bound: 0})
+				bigJobs = append(bigJobs, rt.Job{Name: fmt.Sprintf("addrow-%s-%dx%d+%d", w, c.k, c.r, c.pre), NShards: 1, Args: b})
+				continue
+			}
 			b, _ := json.Marshal(e3Job{Scenario: "addrow", Params: pb, Bound: -1})
 			jobs = append(jobs, rt.Job{Name: fmt.Sprintf("addrow-%s-%dx%d+%d", w, c.k, c.r, c.pre), NShards: 1, Args: b})
 		}
@@ -359,7 +383,10 @@ func c18Run(ctx *rt.Ctx) []*rt.Violation {
 	}
 	outs := rt.RunJobs(ctx, jobs, rt.SpawnOpt{Race: true})
 	vs := rt.Collect(ctx, outs, nil)
-	ctx.Cov.Note("rule", "all interleavings (unbounded preemptions) of k goroutines x r AddRow calls at every lock/unlock/waitgroup/atomic operation of the real writers, under the Go race detector; after the join the writer is flushed, opened, and compared with the model of a sequential insertion in id order")
+	if len(bigJobs) > 0 {
+		vs = append(vs, rt.Collect(ctx, rt.RunJobs(ctx, bigJobs, rt.SpawnOpt{Race: true, Procs: 4}), nil)...)
+	}
+	ctx.Cov.Note("rule", "all interleavings (unbounded preemptions; no preemption - only the orders of whole threads - for the one configuration with 131071 pre-inserted rows) of k goroutines x r AddRow calls at every lock/unlock/waitgroup/atomic operation of the real writers, under the Go race detector; after the join the writer is flushed, opened, and compared with the model of a sequential insertion in id order")
 	ctx.Cov.Note("configurations", fmt.Sprintf("%v (k, r, pre-inserted rows) x {in-memory writer, big writer}", cfgs))
 	ctx.Cov.Add("distinct_outcomes", int64(ctx.Cov.SetLen("outcomes")))
 	ctx.Assumef("scheduling points are the sync/atomic operations of packages updog and updog/driver (rewritten at build time); code between two such operations runs atomically, unsynchronised accesses are caught by the race detector, which sees only the program's own happens-before edges (turn hand-off is invisible to it)")
